@@ -46,6 +46,9 @@ def collect(rep, script, rows, res, classes, stats, limit=40):
                                              semlib.show_resp(e["r"][backend]))
             if other:
                 what += "  ||  %s: %s" % (other, semlib.show_resp(e["r"][other]))
+        elif e["ev"] == "rp":
+            what = "%s: range-point table of the real Rearranger for %s -> points %s" % (clause, json.dumps(e.get("netsc") or [[n["loc"], n["len"]] for n in e["nets"]])[:300],
+                                                                                      json.dumps(e["points"])[:600])
         elif e["ev"] == "freq":
             what = "%s: %s asked %d times on %s -> counts %s other=%s" % (clause, semlib.show_q(e["q"]), e["n"], backend,
                                                                          json.dumps(e["counts"][backend]), e["other"][backend])
